@@ -278,8 +278,9 @@ Inductive stmt :=
 | SIf (c : expr) (th el : list stmt)
 | SIfAsk (negate : bool) (f : string) (args : list expr) (th el : list stmt)
 | SRepeat (n : expr) (body : list stmt)          (* for _ in a..b { body }: n = b - a, evaluated once *)
-| SDoMay (f : string) (args : list expr).        (* a call that runs caller-supplied code (a destructor): recorded,
+| SDoMay (f : string) (args : list expr)         (* a call that runs caller-supplied code (a destructor): recorded,
                                                     and the script says whether it returns (Some _) or panics (None) *)
+| SReturn.                                       (* `return ..;`: leaves the procedure, out of every enclosing loop *)
    (* `if f(args) {..} else {..}` / `if !f(args) ..` where f is a caller-supplied closure: its answer
       comes from a script (None: the closure panics); the call is recorded like an effect *)
 
@@ -304,6 +305,7 @@ Fixpoint eval_args (ft : fntab) (en : env) (es : list expr) : option (list val) 
 Inductive xres :=
 | XOk (en : env) (tr : list effect) (script : list (option bool))
 | XPanic (en : env) (tr : list effect)
+| XRet (en : env) (tr : list effect) (script : list (option bool))     (* left by `return` *)
 | XStuck.
 
 Fixpoint exec (ft : fntab) (fuel : nat) (en : env) (tr : list effect) (script : list (option bool))
@@ -355,6 +357,7 @@ Fixpoint exec (ft : fntab) (fuel : nat) (en : env) (tr : list effect) (script : 
                end) (N.to_nat k) en tr script
         | _ => XStuck
         end
+    | SReturn :: _ => XRet en tr script
     | SDoMay f args :: r =>
         match eval_args ft en args with
         | Some vs =>
